@@ -65,9 +65,24 @@ func genDescC19(t *rapid.T, label string, like *DescC19) DescC19 {
 	if like != nil && rapid.IntRange(0, 1).Draw(t, label+"-like") == 0 {
 		// mostly equal to another descriptor, differing in at most one compared attribute
 		rest, dec, adj, cancel := d.Rest, d.Decoded, d.Adj, d.Cancel
+		if rapid.IntRange(0, 2).Draw(t, label+"-same-rest") == 0 {
+			// identical in every other field as well (same UPID, components, flags, duration)
+			rest = like.Rest
+		}
 		d = *like
 		d.Rest, d.Decoded, d.Adj, d.Cancel = rest, dec, adj, cancel
-		switch rapid.IntRange(0, 8).Draw(t, label+"-differ") {
+		nd := rapid.SampledFrom([]int{1, 1, 2}).Draw(t, label+"-ndiffer")
+		for k := 0; k < nd; k++ {
+			c19Differ(t, fmt.Sprintf("%s-differ%d", label, k), &d)
+		}
+	}
+	return d
+}
+
+// c19Differ changes (at most) one compared attribute of d.
+func c19Differ(t *rapid.T, label string, d *DescC19) {
+	{
+		switch rapid.IntRange(0, 10).Draw(t, label) {
 		case 0:
 			d.Event++
 		case 1:
@@ -84,9 +99,12 @@ func genDescC19(t *rapid.T, label string, like *DescC19) DescC19 {
 			if d.Type == 0x34 || d.Type == 0x36 {
 				d.HasSub = !d.HasSub
 			}
+		case 7, 8:
+			d.Type ^= 1 // the start/end partner type
+		case 9:
+			d.Type = rapid.SampledFrom(segTypesNamed).Draw(t, label+"-type")
 		}
 	}
-	return d
 }
 
 func genC19(t *rapid.T) CaseC19 {
@@ -248,7 +266,7 @@ func descKey(d *DescC19) string {
 var propC19 = hx.Register(hx.Prop[CaseC19]{ID: "C19", Gen: genC19, Check: checkC19})
 
 func c19Rule() {
-	hx.Rec("C19").SetRule("rapid cases: three descriptors (named or arbitrary type, event id in 1..3, signal with PTS in {1000,2000,2^33-1} or without PTS, segment number/expected in 0..2, sub-segment fields for 0x34/0x36), the second and third derived from the first with at most one compared attribute changed half of the time, ALL other descriptor fields drawn freely (flags, components, duration, UPID/MID, the cancel indicator on API-built ones, the split of the signal time into pts_time + pts_adjustment), each realised either through the creation API or by decoding a reference encoding; CanClose on all 9 ordered pairs vs the hand-transcribed rule table (also with the argument wrapped in a decorator type that embeds the interface), IsIn/IsOut vs the documented lists, Equal vs its definition, symmetry, transitivity and congruence on the triple. Enumerated: all 256x256 type pairs x event-equal x PTS-equal x (segment number = expected) x incoming has sub-segments (65536 x 16), IsIn/IsOut for all 256 types, and all ordered pairs of a 720-descriptor family for the equality laws. Non-trivial: a pair with a table entry, or an equal pair.",
+	hx.Rec("C19").SetRule("rapid cases: three descriptors (named or arbitrary type, event id in 1..3, signal with PTS in {1000,2000,2^33-1} or without PTS, segment number/expected in 0..2, sub-segment fields for 0x34/0x36), the second and third derived from the first with one or two compared attributes (incl. the type: start/end partner or any named type) changed half of the time, ALL other descriptor fields drawn freely or (one derived descriptor in three) identical to the first's (flags, components, duration, UPID/MID, the cancel indicator on API-built ones, the split of the signal time into pts_time + pts_adjustment), each realised either through the creation API or by decoding a reference encoding; CanClose on all 9 ordered pairs vs the hand-transcribed rule table (also with the argument wrapped in a decorator type that embeds the interface), IsIn/IsOut vs the documented lists, Equal vs its definition, symmetry, transitivity and congruence on the triple. Enumerated: all 256x256 type pairs x event-equal x PTS-equal x (segment number = expected) x incoming has sub-segments (65536 x 16), IsIn/IsOut for all 256 types, and all ordered pairs of a 720-descriptor family for the equality laws. Non-trivial: a pair with a table entry, or an equal pair.",
 		"the rule table is a transcription of the pinned commit's documented rules (the property is defined relative to it)",
 		"the DiffPTS rule is only asserted when both signals carry a PTS")
 }
